@@ -8,6 +8,7 @@ import (
 	"os/exec"
 	"path/filepath"
 	"regexp"
+	"runtime"
 	"sort"
 	"strings"
 	"sync"
@@ -60,6 +61,7 @@ func concScenario(name string, iters int, seed uint64) string {
 			}
 		}
 	})
+	var extra []vivid.ActorRef // helpers to be stopped when the scenario is over
 	switch name {
 	case "spawn-die":
 		// root children: inserted by System.ActorOf callers, removed by the root's own goroutine on OnKilled
@@ -206,10 +208,79 @@ func concScenario(name string, iters int, seed uint64) string {
 				}
 			}
 		})
+	case "respawn":
+		// a named top-level actor is killed and re-created under the same name as soon as the name is free:
+		// the caller's ActorOf (insert into the root's child table) races the root's own handling of the
+		// old instance's OnKilled (compare-and-remove from the same table)
+		par(func(g int) {
+			name := fmt.Sprintf("r-%d", g)
+			ref, err := sys.ActorOf(echo, vivid.WithActorName(name))
+			if err != nil {
+				fail("ActorOf: " + err.Error())
+				return
+			}
+			for i := 0; i < iters; i++ {
+				// the current holder was returned by ActorOf and has not been killed yet: its parent must list it
+				// (by now the root has usually handled the previous holder's OnKilled — the racing step)
+				if i%4 == 3 {
+					time.Sleep(200 * time.Microsecond)
+				}
+				listed := false
+				for _, ch := range sys.Context.VerifState().Children {
+					if ch == ref.GetPath() {
+						listed = true
+					}
+				}
+				if !listed {
+					fail(fmt.Sprintf("TREE-CORRUPT: %s was created by ActorOf and never killed, yet the root's child table does not list it (removed by the termination notice of its dead namesake)", ref.GetPath()))
+					return
+				}
+				sys.Kill(ref, i%2 == 0, "churn")
+				ok := false
+				for try := 0; try < 2000000 && !ok; try++ {
+					if r, err := sys.ActorOf(echo, vivid.WithActorName(name)); err == nil {
+						ref, ok = r, true
+					} else {
+						runtime.Gosched()
+					}
+				}
+				if !ok {
+					fail("the name " + name + " never became free again after its holder was killed")
+					return
+				}
+			}
+		})
+	case "ask-die":
+		// actors die with asks outstanding: the kill path closes the dying actor's futures while replies
+		// (the replier's goroutine) and timeouts (timer goroutines) complete and unregister the same futures
+		hole, _ := sys.ActorOf(vivid.ActorFN(func(c vivid.ActorContext) {}))
+		sink, _ := sys.ActorOf(echo)
+		extra = append(extra, hole, sink)
+		par(func(g int) {
+			for i := 0; i < iters; i++ {
+				ref, err := sys.ActorOf(vivid.ActorFN(func(c vivid.ActorContext) {
+					if _, ok := c.Message().(*stressMsg); ok {
+						for k := 0; k < 8; k++ {
+							c.Ask(hole, &stressMsg{k}, time.Duration(200+100*k)*time.Microsecond)
+							c.Ask(sink, &stressMsg{k}, 20*time.Millisecond)
+						}
+						c.Kill(c.Ref(), false, "done")
+					}
+				}))
+				if err != nil {
+					fail("ActorOf: " + err.Error())
+					continue
+				}
+				sys.Tell(ref, &stressMsg{i})
+			}
+		})
 	default:
 		return "HARNESS: unknown scenario " + name
 	}
 	wg.Wait()
+	for _, r := range extra {
+		sys.Kill(r, false, "scenario over")
+	}
 	if name == "es" {
 		// late subscribers missed the publications that end them: publish until none is left
 		for i := 0; i < 50; i++ {
@@ -228,7 +299,7 @@ func concScenario(name string, iters int, seed uint64) string {
 	var last string
 	for time.Now().Before(deadline) {
 		last = treeProblem(sys)
-		if last == "" && name != "spawn-die" && name != "spawn-fail" && name != "es" {
+		if last == "" && name != "spawn-die" && name != "spawn-fail" && name != "es" && name != "ask-die" {
 			break
 		}
 		if last == "" {
@@ -300,7 +371,11 @@ func treeProblem(sys *actor.System) string {
 			if parent == "" {
 				parent = "/"
 			}
-			if pc := sys.VerifLookup(parent); pc != nil {
+			pc := sys.VerifLookup(parent)
+			if parent == "/" {
+				pc = sys.Context // the root is not in the registry
+			}
+			if pc != nil {
 				found := false
 				for _, ch := range pc.VerifState().Children {
 					if ch == p {
@@ -431,7 +506,7 @@ func (e *concEngine) Generate(c *Ctx) {
 	if c.Thorough() {
 		iters = 3000
 	}
-	for _, sc := range []string{"spawn-die", "spawn-kill", "spawn-fail", "ask", "es", "ref"} {
+	for _, sc := range []string{"spawn-die", "spawn-kill", "spawn-fail", "ask", "es", "ref", "respawn", "ask-die"} {
 		c.Case(fmt.Sprintf("stress %s %d", sc, iters))
 		c.R.Nontrivial()
 		c.R.Hit("scenario:" + sc)
